@@ -15,8 +15,19 @@
 #ifndef PERIODIC
 #define PERIODIC 0
 #endif
+#ifndef ORD
+#define ORD PERIODIC      // 0 Morton, 1 periodic Morton, 2 Hilbert (3-D)
+#endif
+#ifndef EXEC
+#define EXEC 0            // 0 sequential, 1 OpenMP (mock runtime)
+#endif
 
 #include "fmmharness.hpp"
+#include "spacial/tbfhilbertspaceindex.hpp"
+#include "../runtimes/sched.hpp"
+#if EXEC == 1
+#include "algorithms/openmp/tbfopenmpalgorithm.hpp"
+#endif
 
 using Real = REALT;
 using DataT = DATAT;
@@ -24,15 +35,25 @@ constexpr int Dim = DIM;
 constexpr long NbData = Dim + NX;
 // positions are generated in the narrower of the two types so that they are exactly representable in both
 constexpr int RealCode = (std::is_same<Real, float>::value || std::is_same<DataT, float>::value) ? 1 : 0;
-constexpr bool Periodic = PERIODIC != 0;
+constexpr bool Periodic = (ORD == 1);
+constexpr bool Hilbert = (ORD == 2);
 using Config = TbfSpacialConfiguration<Real, Dim>;
+#if ORD == 2
+using SI = TbfHilbertSpaceIndex<Dim, Config, false>;
+#else
 using SI = TbfMortonSpaceIndex<Dim, Config, Periodic>;
+#endif
 using Tree = TbfTree<Real, DataT, NbData, uint64_t, gf::NEVAL + 1, gf::Val, gf::Val, SI>;
 using Kernel = probe::GfKernel<Real, SI>;
+#if EXEC == 1
+using Algo = TbfOpenmpAlgorithm<Real, Kernel, SI>;
+#else
 using Algo = TbfAlgorithm<Real, Kernel, SI>;
+#endif
 
 namespace {
 using rm::Coord;
+bool g_hilbertGeometry = false;   // probe of F-HILBERT: assert the full geometric oracles on the Hilbert ordering too
 
 std::vector<std::vector<long>> groupShape(const Tree& t){
     std::vector<std::vector<long>> s;
@@ -59,12 +80,26 @@ std::string propRebuild(const FmmCase& c0, const std::string& prop){
     if(!mt.allInBox || !mt.allSound) return "SKIP generator soundness";
     auto in = fh::makeInput<Real, DataT, NbData>(c, c.pos, c.extra, Dim, c.nextra);
     std::unique_ptr<Tree> tree;
-    const long bs = c.blockSize == -1 ? std::max(1L, long(mt.leaves.size()) / 3) : c.blockSize;   // explicit sizes only: rebuild keeps the size chosen at construction
-    tree.reset(new Tree(config, in.data, bs, c.oneGroupPerParent != 0));
-    const bool ogpp = c.oneGroupPerParent != 0;
+    {
+        fh::ScopedBlockEnv env(c.blockSize == -1 ? c.envBlock : 0);
+        if(c.blockSize == -1) tree.reset(new Tree(config, in.data));      // automatic block size
+        else tree.reset(new Tree(config, in.data, c.blockSize, c.oneGroupPerParent != 0));
+    }
+    const long bs = tree->getNbElementsPerGroup();
+    const bool ogpp = c.blockSize == -1 ? false : (c.oneGroupPerParent != 0);
+    if(bs < 1) return "automatic block size is " + std::to_string(bs);
+    if(c.variant & 1) c.cycles.clear();      // configuration without rebuild
 
-    probe::Ctx ctx(c.salt);
-    ctx.dim = Dim; ctx.height = H; ctx.base = H - 1; ctx.periodic = Periodic;
+    const bool relaxed = Hilbert && !g_hilbertGeometry;
+    probe::Ctx ctx(c.salt, relaxed);
+    ctx.dim = Dim; ctx.height = H; ctx.base = H - 1; ctx.periodic = Periodic; ctx.hilbert = relaxed; ctx.checking = !relaxed;
+    msched::global().reset(c.threads, c.sched);
+    {
+        std::string e = fh::checkStructure<Dim>(*tree, mt, bs, ogpp, nullptr, !relaxed);
+        if(!e.empty()) return "structure: " + e;
+        e = fh::checkConstruction<Dim>(*tree, mt, in.rows, true);
+        if(!e.empty()) return "construction: " + e;
+    }
     std::vector<gf::Val> accumulated(c.pos.size(), gf::zero());
     long nbRebuilds = 0, nbExecutes = 0; bool shapeChanged = false;
 
@@ -72,6 +107,10 @@ std::string propRebuild(const FmmCase& c0, const std::string& prop){
         ctx.reset(); ctx.multAddr.clear(); ctx.localAddr.clear();
         ctx.leafOf[0] = &mt.leafOf; ctx.rows[0] = &in.rows;
         fh::registerCells<Dim>(*tree, ctx);
+        {
+            std::vector<uint32_t> s2 = c.sched; if(!s2.empty()) s2.push_back(uint32_t(nbExecutes) * 2246822519u);
+            msched::global().reset(c.threads, s2);
+        }
         Algo algo(config, Kernel(&ctx), long(lstop));
         algo.execute(*tree);
         nbExecutes += 1;
@@ -127,7 +166,7 @@ std::string propRebuild(const FmmCase& c0, const std::string& prop){
         // ---- rebuild
         tree->rebuild();
         nbRebuilds += 1;
-        std::string e = fh::checkStructure<Dim>(*tree, mt, bs, ogpp);
+        std::string e = fh::checkStructure<Dim>(*tree, mt, bs, ogpp, nullptr, !relaxed);
         if(!e.empty()) return "structure after rebuild: " + e;
         e = fh::checkConstruction<Dim>(*tree, mt, in.rows, false);
         if(!e.empty()) return "after rebuild: " + e;
@@ -138,7 +177,7 @@ std::string propRebuild(const FmmCase& c0, const std::string& prop){
         if(!zero) return "cell expansions are not reset to zero by rebuild";
         {
             // equivalent to a tree freshly built from the edited particles
-            Tree fresh(config, in.data, bs, ogpp);
+            Tree fresh(config, in.data, bs, ogpp);   // bs = the size chosen at construction (kept by rebuild)
             if(groupShape(fresh) != groupShape(*tree)) return "rebuilt tree is not grouped like a tree freshly built from the edited particles";
         }
         if(prop == "C17"){
@@ -166,7 +205,16 @@ int main(int argc, char** argv){
     if(a.prop.empty()){ std::cerr << "usage: --prop C13 ...\n"; return 2; }
     const std::string prop = a.prop;
     pbt::GenCfg g; g.dim = Dim; g.real = RealCode; g.cycles = true; g.maxCycles = 4; g.maxNextra = NX; g.autoBlock = true;
+    g.variants = (prop == "C19") ? 2 : 1;     // C19: with and without rebuild
+#if EXEC == 1
+    g.schedules = true; g.executors = 2;
+#endif
     static const int hmax[5] = {0, 7, 5, 4, 3};
     g.minH = Periodic ? 2 : 1; g.maxH = int(a.getInt("maxh", hmax[Dim])); g.maxN = int(a.getInt("maxn", 80));
-    return hc::runMain(a, g, [&](const FmmCase& c){ return propRebuild(c, prop); });
+    g_hilbertGeometry = a.getInt("hilbert-geometry", 0) != 0;
+    return hc::runMain(a, g, [&](const FmmCase& c){
+        std::string r = propRebuild(c, prop);
+        if(Hilbert && g_hilbertGeometry && !r.empty() && r.compare(0, 4, "SKIP") != 0) r = "[cross-level] (Hilbert ordering, geometric oracles) " + r;
+        return r;
+    });
 }
